@@ -36,6 +36,15 @@ type c2PeerPrimOpt struct {
 
 func (*c2PeerPrimOpt) Primary() {}
 
+// c2PeerEmb declares its point inside an embedded struct of an unexported type.
+type c2deps struct {
+	Peer scen.IQ `wire:""`
+}
+type c2PeerEmb struct {
+	scen.QBase
+	c2deps
+}
+
 type c2Neutral struct {
 	Nm string
 	G  scen.IQ `wire:""`
@@ -54,10 +63,14 @@ type c2PeerSpec struct {
 	Prim  bool `json:"primary,omitempty"`
 	Named bool `json:"named,omitempty"`
 	Opt   bool `json:"optional,omitempty"`
+	Emb   bool `json:"point_in_unexported_embedded_struct,omitempty"`
 }
 
 func (s c2PeerSpec) typ() string {
 	t := "c2Peer"
+	if s.Emb {
+		return "c2PeerEmb"
+	}
 	if s.Prim {
 		t += "Prim"
 	}
@@ -82,10 +95,11 @@ func c02TypedGen(c *core.Ctx) func(yield func(c02TypedCase) bool) {
 		for _, prim := range []bool{false, true} {
 			for _, named := range []bool{true, false} {
 				for _, opt := range []bool{false, true} {
-					specs = append(specs, c2PeerSpec{prim, named, opt})
+					specs = append(specs, c2PeerSpec{Prim: prim, Named: named, Opt: opt})
 				}
 			}
 		}
+		specs = append(specs, c2PeerSpec{Named: true, Emb: true}, c2PeerSpec{Emb: true})
 		maxPeers := 3
 		ok := true
 		seqs(maxPeers, len(specs), func(s []int) bool {
@@ -167,6 +181,9 @@ func c2Build(cs c02TypedCase) (comps []any, names []string, get, nget []func() a
 			comps, get[i] = append(comps, x), func() any { return x.Peer }
 		case "c2PeerPrim":
 			x := &c2PeerPrim{QBase: b}
+			comps, get[i] = append(comps, x), func() any { return x.Peer }
+		case "c2PeerEmb":
+			x := &c2PeerEmb{QBase: b}
 			comps, get[i] = append(comps, x), func() any { return x.Peer }
 		default:
 			x := &c2PeerPrimOpt{QBase: b}
